@@ -427,6 +427,15 @@ fn layouts() -> Vec<Layout> {
         l("LG", &["src/b.lua.lua", "src/b.lua.luau", "src/init.txt", "src/b.txt", "src/b.txt.lua", "src/.luau", "src/.luau.lua", "src/b."],
           &["src/a.lua", "src/init.lua", "main.lua"]),
     ];
+    // names that begin with the module folder name but are not module-folder files
+    // (init.spec.luau, init.server.luau, index.spec.lua) as requiring files and as targets
+    list.push(l(
+        "LH",
+        &["src/pkg/helper.luau", "src/helper.luau", "src/shared.lua", "shared.lua", "src/pkg/init.config",
+          "src/pkg/init.config.lua", "src/pkg/index.config.luau"],
+        &["src/pkg/init.spec.luau", "src/pkg/init.server.luau", "src/pkg/init.luau", "src/pkg/index.spec.lua",
+          "src/pkg/index.lua", "src/a.lua", "init.spec.luau"],
+    ));
     // .luaurc aliases
     let mut with_rc = l(
         "LR",
@@ -452,7 +461,18 @@ const COMMON: &[&str] = &[
     "./init.txt", "./b.txt.lua", "./.luau.lua", "../up/a", "./sub/a", "./a", "../a", "vendor/b", "../pkg/b", "./pkg/b", "/b", "../../../b",
 ];
 
+const INIT_LIKE: &[&str] = &[
+    "./helper", "../helper", "../shared", "./shared", "../../shared", "@self/helper", "@self/../helper", "./pkg/helper",
+    "./pkg/init.config", "./pkg/init.config.lua", "./pkg/init.spec", "./pkg/init.spec.luau", "./pkg/init.server",
+    "./pkg/init.server.luau", "./pkg/index.spec", "./pkg/index.spec.lua", "./pkg/index.config", "./pkg/index.config.luau",
+    "./init.spec", "./init.spec.luau", "./init.config", "./init.config.lua", "./init.server.luau", "./index.spec", "./index.config",
+    "./pkg", "../pkg/init.spec", "../pkg/init.config", ".", "./init", "./index",
+];
+
 fn lits_for(layout: &str, quick: bool) -> Vec<&'static str> {
+    if layout == "LH" {
+        return INIT_LIKE.to_vec();
+    }
     if !quick {
         return COMMON.to_vec();
     }
@@ -467,6 +487,7 @@ fn lits_for(layout: &str, quick: bool) -> Vec<&'static str> {
         "LE" => &["../../x", "../x", "../../../x", "./x", "/abs/b", "/abs/b.lua", "@abs/b", "abs/b", "@up/b", "up/b", "../../lib/b", "../up/a", "./sub/a", "./a", "../a"],
         "LF" => &["./b", "./b.lua", "../b", "../../b", "/project/src/b", "/abs/b", "@pkg/b", "pkg/b", "@abs/b", "@self/b", "../src/b", "../../../b", "/b"],
         "LG" => &["./b.lua.lua", "./b.lua", "./b.txt", "./b.txt.lua", "./b.", "./.luau", "./.luau.lua", "./init.txt", "./init", "./b", "."],
+        "LH" => INIT_LIKE,
         "LR" => &["@pkg/b", "pkg/b", "@root/src/a", "@root/pkg/b", "@here/c", "@unknown/b", "./b", "../pkg/b", "../lib/b"],
         _ => COMMON,
     };
@@ -479,6 +500,8 @@ fn srcs_for(layout: &str) -> Vec<&'static str> {
         "LB" => vec!["src/a.lua", "src/index.lua", "src/init.lua", "main.lua"],
         "LD" | "LR" => vec!["src/a.lua", "src/init.lua", "main.lua", "src/sub/c.lua", "src/sub/init.luau"],
         "LE" => vec!["src/a.lua", "src/init.lua", "main.lua", "src/sub/c.lua", "../up/a.lua", "../up/sub/a.lua", "../up/sub/init.lua"],
+        "LH" => vec!["src/pkg/init.spec.luau", "src/pkg/init.server.luau", "src/pkg/init.luau", "src/pkg/index.spec.lua",
+                     "src/pkg/index.lua", "src/a.lua", "init.spec.luau"],
         "LF" => vec!["/project/src/a.lua", "/project/src/init.lua", "/project/main.lua", "/main.lua", "/init.lua"],
         _ => vec!["src/a.lua", "src/init.lua", "main.lua"],
     }
@@ -493,6 +516,7 @@ fn cfgs_for(layout: &str) -> Vec<&'static str> {
         "LE" => vec!["P0", "U0", "P3", "U3", "P5", "U5"],
         "LF" => vec!["P5", "U5", "P0", "U0"],
         "LG" => vec!["P0", "U0", "P2"],
+        "LH" => vec!["P0", "U0", "P1"],
         "LR" => vec!["P6", "U6", "P3", "U3"],
         _ => vec![],
     }
@@ -508,6 +532,7 @@ fn pairs_for(layout: &str) -> Vec<(&'static str, &'static str)> {
         "LE" => vec![("P0", "U0"), ("U0", "P0"), ("P3", "U3"), ("U3", "P3")],
         "LF" => vec![("P5", "U5"), ("U5", "P5"), ("P0", "U0"), ("U0", "P0")],
         "LG" => vec![("P0", "U0"), ("U0", "P0")],
+        "LH" => vec![("P0", "U0"), ("U0", "P0"), ("P1", "U0"), ("U0", "P1")],
         "LR" => vec![("P6", "U6"), ("U6", "P6")],
         _ => vec![],
     }
